@@ -488,6 +488,25 @@ def set_idx(seq, idx, val):
     return ('upd', base, tuple(entries))
 
 
+def mutates(cur, init):
+    """Is `cur` the object `init` after in-place updates (as opposed to a rebinding of the name)?"""
+    t = cur
+    while True:
+        if t == init:
+            return True
+        tag = t[0]
+        if tag == 'obj' or tag == 'upd':
+            t = t[1]
+        elif tag == 'mut':
+            t = t[2]
+        elif tag == 'ite':
+            return mutates(t[2], init) or mutates(t[3], init)
+        elif tag in ('after', 'phi', 'tryphi', 'tryany'):
+            return True      # loop-carried / merged: conservatively keep
+        else:
+            return False
+
+
 def get_attr(obj, name):
     if obj[0] == 'obj':
         for k, v in obj[2]:
@@ -749,14 +768,15 @@ class PE:
             return rec(0, env)
         except NotConcrete:
             pass
-        # symbolic comprehension
+        # symbolic comprehension (the first iterable is evaluated in the enclosing scope)
+        it0 = self.ev(gens[0].iter, env)
         self.lam_depth += 1
         d = self.lam_depth
         try:
             env2 = dict(env)
             gl = []
             for gi, g in enumerate(gens):
-                it = self.ev(g.iter, env2)
+                it = it0 if gi == 0 else self.ev(g.iter, env2)
                 self.bind_pattern_syms(g.target, env2, lambda path, gi=gi: ('bv', d, gi) + path)
                 conds = tuple(self.ev(c, env2) for c in g.ifs)
                 gl.append((it, conds))
@@ -788,7 +808,7 @@ class PE:
 
     def ev_Yield(self, n, env):
         v = NONE if n.value is None else self.ev(n.value, env)
-        self.cur_effects.append(('yield', v))
+        self.cur_effects.append(('yield', v, self.roots_state(env)))
         return ('sent',)
 
     def ev_YieldFrom(self, n, env):
@@ -1060,7 +1080,7 @@ class PE:
         out = []
         for name, init in self.roots.items():
             cur = env.get(name, init)
-            if cur != init:
+            if cur != init and mutates(cur, init):
                 out.append((name, cur))
         return tuple(sorted(out, key=lambda x: x[0]))
 
@@ -1085,12 +1105,11 @@ class PE:
             if isinstance(s.value, ast.Constant):
                 return False      # docstring
             v = self.ev(s.value, env)
-            if v[0] in ('call',):
-                effects.append(('do', v))
-            elif v[0] in ('sent',) or is_c(v) or v[0] == 'mutres':
+            if v[0] in ('sent',) or is_c(v) or v[0] == 'mutres':
                 pass
             else:
-                effects.append(('do', v))
+                # the callee may read state written so far: keep the snapshot with the call
+                effects.append(('do', v, self.roots_state(env)))
             return False
         if isinstance(s, ast.Return):
             v = NONE if s.value is None else self.ev(s.value, env)
@@ -1292,8 +1311,56 @@ class PE:
         else:
             cond = self.ev(s.test, env2)
         body_eff = []
+        save = (self.nloops, self.ntry, len(self.sm.funcs), list(self.sm.undefined))
+        env_first = dict(env2)
         self.exec_block(s.body, env2, body_eff)
         nexts = tuple(env2.get(v, ('unbound', v)) for v in carried)
+        # induction variables: v' = v + k (k loop-invariant constant) over range(a, b, st) -> closed form
+        if kind == 'for' and it[0] == 'range' and is_int(it[1]) and is_int(it[3]) and it[3][1] != 0 and isinstance(s.target, ast.Name):
+            ivs = {}
+            for rank, v in enumerate(carried):
+                phi = ('phi', L, rank)
+                nx = nexts[rank]
+                k = None
+                if nx[0] == '+' and len(nx[1]) == 2 and phi in nx[1]:
+                    o = nx[1][0] if nx[1][1] == phi else nx[1][1]
+                    if is_int(o):
+                        k = o[1]
+                if k is not None and kind_of(inits[rank]) != 'seq':
+                    ivs[v] = (rank, k)
+            if ivs:
+                a0, st = it[1][1], it[3][1]
+                itsym = ('it', L)
+                cnt = itsym if (a0 == 0 and st == 1) else mk_bin('//', mk_bin('-', itsym, C(a0), self.opts), C(st), self.opts)
+                carried2 = [v for v in carried if v not in ivs]
+                self.nloops, self.ntry = save[0], save[1]
+                del self.sm.funcs[save[2]:]
+                self.sm.undefined[:] = save[3]
+                env2 = dict(env)
+                for rank, v in enumerate(carried2):
+                    env2[v] = ('phi', L, rank)
+                for v, (rank, k) in ivs.items():
+                    env2[v] = mk_bin('+', inits[rank], mk_bin('*', C(k), cnt, self.opts), self.opts)
+                for v in assigned:
+                    if v not in env and v not in tn:
+                        env2.pop(v, None)
+                self.bind_pattern_syms(s.target, env2, lambda path: ('it', L) + path)
+                body_eff = []
+                self.exec_block(s.body, env2, body_eff)
+                n_it = None
+                try:
+                    n_it = C(len(to_py(it)))
+                except NotConcrete:
+                    n_it = ('call', ('b', 'len'), (it,), ())
+                old_inits = inits
+                for v, (rank, k) in ivs.items():
+                    env2[v] = mk_bin('+', old_inits[rank], mk_bin('*', C(k), n_it, self.opts), self.opts)
+                iv_after = {v: env2[v] for v in ivs}
+                carried = carried2
+                inits = tuple(env[v] for v in carried)
+                nexts = tuple(env2.get(v, ('unbound', v)) for v in carried)
+                for v in ivs:
+                    env[v] = iv_after[v]
         else_eff = []
         # after the loop
         for rank, v in enumerate(carried):
@@ -1387,7 +1454,7 @@ class PE:
             elif extra_env and nm in extra_env:
                 env[nm] = extra_env[nm]
             else:
-                env[nm] = ('sym', nm)
+                env[nm] = ('arg', i)
             self.roots[nm] = env[nm]
         for x in a.kwonlyargs:
             env[x.arg] = kwargs.pop(x.arg, ('sym', x.arg))
@@ -1432,7 +1499,7 @@ def substitute(t, sub, opts=None):
         if k in memo and memo[k][0] is t:
             return memo[k][1]
         tag = t[0]
-        if tag in ('c', 'sym', 'g', 'b', 'p', 'phi', 'it', 'bv', 'lfn', 'undef', 'after', 'unbound', 'sent', 'exc'):
+        if tag in ('c', 'sym', 'arg', 'g', 'b', 'p', 'phi', 'it', 'bv', 'lfn', 'undef', 'after', 'unbound', 'sent', 'exc'):
             out = t
         elif tag in ('+', '-', '*', '//', '/', '%', '**', '<<', '>>', '&', '|', '^', '@'):
             items = [rec(x) for x in t[1]]
@@ -1486,6 +1553,8 @@ def _show(t, d=0):
         return repr(v)
     if tag in ('sym', 'g', 'b', 'undef'):
         return str(t[1])
+    if tag == 'arg':
+        return 'arg%d' % t[1]
     if tag == 'p':
         return 'p%d_%d' % (t[1], t[2])
     if tag == 'phi':
@@ -1548,7 +1617,7 @@ def diff(a, b, path='', out=None, limit=4):
     if type(a) is not tuple or type(b) is not tuple or not a or not b:
         out.append((path, a, b))
         return out
-    if a[0] != b[0] or len(a) != len(b) or a[0] in ('c', 'sym', 'g', 'b', 'p', 'phi', 'it', 'bv', 'after'):
+    if a[0] != b[0] or len(a) != len(b) or a[0] in ('c', 'sym', 'arg', 'g', 'b', 'p', 'phi', 'it', 'bv', 'after'):
         out.append((path, a, b))
         return out
     n0 = len(out)
